@@ -15,7 +15,9 @@ RULE = ("one case = a history of up to 80 operations over 1-3 MersenneTwister "
         "streams (next_float, next_int(lo,hi) with single-value / negative / "
         "zero-spanning / huge ranges up to 2**1000, next_bool, set_seed incl. 0, "
         "negative and 2**200, reset, save_state, restore_state of any earlier "
-        "token of that stream), interleaved across streams. Oracle = relations: "
+        "token of that stream), interleaved across streams; 12 % of the histories "
+        "contain one stream built without a seed under a virtual wall clock (its "
+        "reported seed is then the current seed). Oracle = relations: "
         "every draw is compared bit for bit with a shadow stream that is only ever "
         "constructed and drawn from (reset/set_seed/restore on the subject "
         "correspond to constructing a fresh shadow and replaying the draws since "
@@ -26,7 +28,8 @@ RULE = ("one case = a history of up to 80 operations over 1-3 MersenneTwister "
         "of two. non-trivial = at least one reset or restore happened after draws "
         "and was followed by further draws; distinct = digest of the history")
 COMPONENTS = {"real": ["pydsol.core.streams.MersenneTwister"],
-              "stub": ["random.Random inside the stream (only in the extreme-uniform sub-check)"]}
+              "stub": ["random.Random inside the stream (only in the extreme-uniform sub-check)",
+                       "time.time/sleep in the stream module (virtual clock, only while an unseeded stream is constructed)"]}
 ASSUMPTIONS = ["sizes are swarm-varied: about 1 % of the histories have 700 or 2500 operations (beyond one 624-word block of the generator)",
                "integer ranges wider than the largest float are not generated (int->float conversion raises OverflowError, which is not an out-of-range draw)",
                "weak fit: no scheduler/clock; history + metamorphic relations"]
